@@ -12,13 +12,24 @@ LEAD_NAMES = ["time", "lev", "ens"]
 DTYPES = ["float64", "float32", "int64", "int32", "bool"]
 
 
+STORES = ["C", "C", "C", "F", "T", "dask"]
+# narrow integer types: values are scaled up to the edge of the type (sums and products of two of them leave it)
+NARROW = {"int16": 4000, "uint8": 30, "int8": 15, "uint16": 8000, "int32": 250_000_000}
+
+
 @st.composite
-def data_spec(draw, n_elem, dtypes=DTYPES, max_lead=3, vmax=8, explicit_limit=160):
+def data_spec(draw, n_elem, dtypes=DTYPES, max_lead=3, vmax=8, explicit_limit=160, stores=("C",), big=False):
     nlead = draw(st.integers(0, max_lead))
     lead = [draw(st.integers(1, 3)) for _ in range(nlead)]
     dtype = draw(sampled_from(dtypes))
     total = int(np.prod(lead)) * n_elem if lead else n_elem
     spec = {"lead": lead, "dtype": dtype, "scale": 8 if dtype.startswith("float") else 1, "vmax": vmax}
+    if len(stores) > 1:
+        # how the array handed to the library is held: C order, Fortran order, the transposed view of an array stored
+        # with the element dimension first, or chunked (dask)
+        spec["store"] = draw(sampled_from(list(stores)))
+    if big and dtype in NARROW and draw(st.booleans()):
+        spec["big"] = True
     if total <= explicit_limit:
         spec["values"] = draw(st.lists(st.integers(-vmax, vmax), min_size=total, max_size=total))
         spec["seed"] = 0
@@ -45,6 +56,10 @@ def materialise(spec, n_elem):
         return (raw % 3 == 0)
     if dt.startswith("float"):
         return (raw / float(spec.get("scale", 8))).astype(dt)
+    if spec.get("big") and dt in NARROW:
+        raw = raw * NARROW[dt]
+    if dt.startswith("uint"):
+        raw = np.abs(raw)
     return raw.astype(dt)
 
 
@@ -61,7 +76,20 @@ def uxda(grid, spec, elem_dim, n_elem, name="v", with_coords=False):
     if with_coords and spec["lead"]:
         coords = {dims[0]: np.arange(spec["lead"][0]) * 10.0}
     # the array handed to the library is its own copy: expectations are computed from `arr`, which no call can reach
-    return ux.UxDataArray(arr.copy(), dims=dims, uxgrid=grid, name=name, coords=coords), arr
+    return ux.UxDataArray(stored(arr, spec.get("store", "C")), dims=dims, uxgrid=grid, name=name, coords=coords), arr
+
+
+def stored(arr, store):
+    """A private copy of `arr` in the requested storage (same values, same shape)."""
+    if store == "F":
+        return np.asfortranarray(arr.copy())
+    if store == "T":
+        return np.ascontiguousarray(arr.transpose()).transpose()
+    if store == "dask":
+        import dask.array as dsa
+
+        return dsa.from_array(arr.copy(), chunks=tuple(max(1, (n + 1) // 2) for n in arr.shape))
+    return arr.copy()
 
 
 def modified(da, arr):
